@@ -157,8 +157,33 @@ def vec_info(t):
     return BUILTIN.get(m.group(1), m.group(1)), int(m.group(2))
 
 
+def mat_info(t):
+    if t.kind != 'rec' or not t.key:
+        return None
+    m = _re.match(r'^linalg::mat<(.*),(\d),(\d)>$', t.key)
+    return (m.group(1), int(m.group(2)), int(m.group(3))) if m else None
+
+
 def linalg_call(L, e, d, name, args):
     """returns C text or None when the function is not in the table"""
+    if name == 'all' and len(args) == 1:
+        # all(isfinite(M)) on a matrix: conjunction over every entry (the boolean matrix itself is never materialised)
+        inner = L.strip(args[0])
+        while inner.get('kind') in ('ImplicitCastExpr', 'MaterializeTemporaryExpr', 'ExprWithCleanups', 'CXXBindTemporaryExpr') and inner.get('inner'):
+            inner = inner['inner'][0]
+        if inner.get('kind') == 'CallExpr' and L.callee_name(inner) == 'isfinite' and len(inner.get('inner', [])) == 2:
+            mt = L.ty(inner['inner'][1]['type']).noref()
+            mi = mat_info(mt)
+            if mi:
+                L.need_record(mt)
+                L.helper('verif_fpclass', 'static inline _Bool verif_isnan(double x) { return x != x; }\n'
+                         'static inline _Bool verif_isinf(double x) { return x == (1.0 / 0.0) || x == -(1.0 / 0.0); }\n'
+                         'static inline _Bool verif_isfinite(double x) { return x == x && x != (1.0 / 0.0) && x != -(1.0 / 0.0); }')
+                ct = L.cty(mt)
+                hn = 'la_all_isfinite_%s' % mangle(ct)
+                conj = ' && '.join('verif_isfinite((double)m.%s.%s)' % (COMP[c], COMP[r]) for c in range(mi[2]) for r in range(mi[1]))
+                h = L.helper(hn, 'static inline _Bool %s(%s m) { return %s; }' % (hn, ct, conj))
+                return '%s(%s)' % (h, L.expr(inner['inner'][1]))
     ats = [L.ty(a['type']).noref() for a in args]
     rt = L.ty(e['type']).noref()
     vi = [vec_info(t) for t in ats]
